@@ -133,10 +133,12 @@ def run(ctx):
     nmove = move_primitive(ctx, rep)
     runlevel.with_extra(ctx, "c04opt", lambda: start_at_optimum_specs(ctx, 6 if ctx.quick else 60))
     stats, samples = run_checks(ctx, rep)
+    dstats = runlevel.det_replay(ctx, rep)
     rep.coverage = {
-        "evaluations": stats["events"], "distinct_nontrivial": stats["moves"],
+        "evaluations": stats["events"] + dstats["iterations"], "distinct_nontrivial": stats["moves"], "composed_model": dstats,
         "rule": "one evaluation = one search or poll step of a deterministic traced run whose incumbent (u, yval, fval) after the step was compared with Inc.step applied to the evaluations of that step; "
-                "non-trivial = steps that moved the incumbent; the result clauses are evaluated against the (x, y) call log kept by the target wrapper",
+                "non-trivial = steps that moved the incumbent; the result clauses are evaluated against the (x, y) call log kept by the target wrapper; "
+                "composed model: every deterministic run replayed through Det.step (candidate sets + acquisition picks in, evaluated points, derived improvements fval - y, incumbent and counters out)",
         "samples": samples, "traces_validated_against_impl": stats["runs"], "stats": stats,
     }
     rep.assumptions = ["default incumbent-update policy (HypC04, re-proved from the option files)", "deterministic target (same value at the same point)"]
